@@ -15,6 +15,7 @@ LEVEL_TEXT = ("Coq theorems for ensembles of every size and all rational members
               "crps_for_ensemble (method ecdf) is the Riemann integral of (F_ens - 1{y<=t})^2 (Coquelicot is_RInt, bridged with Q2R), fair differs "
               "only in the spread normalisation, total = under + over - spread, lower tail + interval + upper tail = unweighted CRPS (both methods, "
               "per-case thresholds), the threshold integral of the ensemble Brier score (with and without fair correction) is the matching CRPS, "
+              "an infinite member of the ensemble Brier score is a valid member beyond the threshold, "
               "invariance under permutation / translation / |a|-scaling, non-negativity and zero-iff. The elementwise expressions of the code are "
               "regenerated from source on every run; the reduction skeleton is a hand model tied by a correspondence check. Proof is the right level: "
               "the relations hold between different public functions and hinge on ties (member = obs = threshold) no sample is guaranteed to hit.")
@@ -58,8 +59,8 @@ ASSUMPTIONS = ["the Coq statements are for finite rational members, observations
                "the Coq statement about brier_score_for_ensemble is for operator.ge (at interval midpoints >= and > coincide); the other operators "
                "and thresholds on a member are compared with an exact rational oracle only",
                "storage dtypes are not modelled in Coq (the model computes with rationals): independence of the storage dtype is a tested predicate"]
-TRUSTED = ["tools/sites/c06.py: custom translator site; it checks the statement skeleton of crps_for_ensemble / tw_* and translates only the "
-           "elementwise expressions; the NaN-skipping sum/mean/count semantics it assumes are validated by the correspondence check"]
+TRUSTED = ["tools/sites/c06.py: custom translator sites; they check the statement skeleton of crps_for_ensemble / tw_* / brier_score_for_ensemble and "
+           "translate only the elementwise expressions; the NaN-skipping sum/mean/count semantics they assume are validated by the correspondence check"]
 
 # counters every complete run must have incremented (harness self-check: a predicate family that silently never runs is reported)
 EXPECT_COUNTS = ["sweep", "random-case", "tw-case", "tw-sweep", "invariance", "brier-integral", "brier-weights", "chain-kwargs", "size-case", "size-tw", "size-brier",
